@@ -84,6 +84,8 @@ class Calls(Exec):
                 return self.call_external(st, w[1], args, kwargs, node)
         if isinstance(fv, VClass):
             return self.construct(st, fv, args, kwargs, node)
+        if isinstance(fv, VAny):
+            return self.call_opaque(st, fv, args, kwargs, node)
         if isinstance(fv, VNone):
             self.prove(st, FALSE, 'aorte', node, "TypeError: 'NoneType' object is not callable")
             raise PathDead()
@@ -597,6 +599,14 @@ class Calls(Exec):
             m = self.ev1(a[0], st)
             ch = self.ev1(a[1], st)
             return VBool(self.holds(st, m, ch, node))
+        if name == 'total_len':
+            # total length of the strings in a list of opaque values
+            l = self.ev1(a[0], st)
+            if not isinstance(l, VList) or l.elem != ('any',):
+                raise Unsupported('total_len() needs a list[any]', node)
+            USED_SUMLEN[0] = True
+            arr = self.harr(st, self.items_key(l.elem, 0), z3.ArraySort(IntS, IntS))
+            return VInt(sumlen_uf(z3.Select(arr, l.t), self.list_len(st, l)))
         if name == 'has':
             m = self.as_map(st, self.ev1(a[0], st), node)
             return VBool(self.map_has(st, m, self.ev1(a[1], st)))
@@ -714,6 +724,29 @@ class Calls(Exec):
             st.assume(cnd)
         return v
 
+    # ------------------------------------------------------------ opaque callables (user callbacks)
+    def call_opaque(self, st, fv, args, kwargs, node):
+        """call of an opaque callable held in a local (a user supplied callback taken from the options).
+        The contract of the function under proof states, per local name, what must hold at the call
+        (`calls`); the result is an unconstrained opaque value; the callable is assumed not to touch the
+        objects of the library (documented assumption)."""
+        fname = node.func.id if isinstance(node.func, ast.Name) else None
+        c = REG.fns.get(st.frame.fnkey)
+        spec = c.calls.get(fname) if (c is not None and fname) else None
+        if spec is None:
+            raise Unsupported('call of an opaque value (declare it under contract.calls)', node)
+        fr = Frame(st.frame.module, st.frame.fnkey, parent=len(st.frames) - 1)
+        fr.loc.update(kwargs)
+        for i, a in enumerate(args):
+            fr.loc['arg%d' % i] = a
+        s2 = st.fork()
+        s2.frames.append(fr)
+        for r in spec.get('requires', []):
+            g = self.eval_spec(s2, r, fr, old=st.old)
+            self.prove(st, g, 'callback', node, '%s(...) is called with %s' % (fname, r))
+        self.note('user callbacks (output.field / output.text) are assumed not to modify library objects')
+        return [(st, self.make_fresh(st, parse_type(spec.get('returns', 'any')), 'cbret'))]
+
     # ------------------------------------------------------------ externals (trusted contracts)
     def call_external(self, st, name, args, kwargs, node):
         """standard-library calls with hand-written contracts; each one is listed in the evidence as
@@ -731,6 +764,14 @@ class Calls(Exec):
             st.assume(z3.ForAll([q], z3.Implies(z3.And(q >= off, q < off + k), isop(z3.Select(arr, q)))))
             st.assume(z3.Or(k == n, z3.Not(isop(z3.Select(arr, off + k)))))
             return [(st, VStr(arr, simp(off + k), simp(n - k)))]
+        if name in ('re.split', 'regex.split'):
+            self.note('external re.split / compiled pattern .split: trusted contract "returns a fresh list with at least one element"')
+            l = VList(('any',), st.alloc)
+            st.alloc = simp(st.alloc + 1)
+            self.tag_list(st, l)
+            self.fresh_list_contents(st, l)
+            st.assume(self.list_len(st, l) >= 1)
+            return [(st, l)]
         raise Unsupported('external call %s' % name, node)
 
     # ------------------------------------------------------------ builtins
@@ -783,7 +824,7 @@ class Calls(Exec):
                     self.prove(s, FALSE, 'aorte', node, "TypeError: object of type 'NoneType' has no len()")
                     raise PathDead()
                 if isinstance(v, VAny):
-                    n = z3.Function('len_any', IntS, IntS)(v.t)
+                    n = len_any_uf(v.t)
                     s.assume(n >= 0)
                     return [(s, VInt(n))]
                 raise Unsupported('len of ' + v.kind, node)
